@@ -1095,13 +1095,16 @@ class XsdUnion(XsdSimpleType):
         mt: Any
         self.member_types = []
 
+        # The types named by the memberTypes attribute come first, then the anonymous
+        # types of the xs:simpleType children (the order decides the type of a value).
+        child_types = []
         for child in self.elem:
             if child.tag != nm.XSD_ANNOTATION and not callable(child.tag):
                 mt = self.builders.simple_type_factory(child, self.schema, self)
                 if isinstance(mt, XMLSchemaParseError):
                     self.parse_error(mt)
                 else:
-                    self.member_types.append(mt)
+                    child_types.append(mt)
 
         if 'memberTypes' in self.elem.attrib:
             for name in self.elem.attrib['memberTypes'].split():
@@ -1133,6 +1136,7 @@ class XsdUnion(XsdSimpleType):
 
                 self.member_types.append(mt)
 
+        self.member_types.extend(child_types)
         if not self.member_types:
             self.parse_error(_("missing xs:union type declarations"))
             self.member_types = [self.maps.any_atomic_type]
